@@ -1,13 +1,18 @@
 """C08 - polygon area and perimeter for every edit history."""
+import collections
+import json
+import os
 import vlib
 
 LEVEL = 'model_checking'
 LEVEL_TEXT = ('The polygon accumulator is a TLA+ state machine over lattice vertices (poles, integer equator longitudes incl. 0, +-180, '
               'wrapped values) whose area oracle is the Gauss-Bonnet turning sum, independent of the implementation\'s S12+crossing method; '
               'TLC explores all build histories to the depth bound, checks the oracle\'s own laws (rotation, reversal, shifts, diagonal cut), '
-              'and every history is replayed on the four back ends with the full observable state (Compute x4 flags, 12 TestPoint, 6 TestEdge, '
+              'and every history is replayed on the five back ends with the full observable state (Compute x4 flags, 14 TestPoint, 6 TestEdge, '
               'CurrentPoint) validated by TLC after every step; the history laws are validated on random WGS84/oblate/prolate polygons with '
-              'the documented error bounds.')
+              'the documented error bounds, together with two laws that are not self-consistency laws: vertices entered as edges of the back '
+              'end\'s own inverse problem give the same polygon, and rhumb polygons agree with the defining integrals of the area under a '
+              'rhumb line evaluated in long double.')
 DESIGN_REF = 'DESIGN.md section 4, C08'
 LEVEL_NOTE = ('Trusted: TLC, Polygon.tla. Exact areas are required for simple lattice polygons and degenerate ones; for self-overlapping '
               'lattice polygons the algebraic area is required modulo half the sphere (Gauss-Bonnet determines it only up to the rotation index). '
@@ -27,7 +32,7 @@ def run(ctx):
     k = 0
     for v in hv:
         polyline, pre, ops = v[1], v[2], v[3]
-        backends = [k % 4] if ctx.quick else [0, 1, 2, 3]
+        backends = [k % 5] if ctx.quick else [0, 1, 2, 3, 4]
         if polyline and ctx.quick and k % 3:
             k += 1
             continue
@@ -64,16 +69,66 @@ def run(ctx):
             for i, ln in enumerate(f):
                 if i in (3, 4):
                     ctx.sample(ln.strip()[:400])
+    # evidence only: how often the laws ev / ra applied and how often the conditioning guard of ev excluded the area comparison
+    laws = collections.Counter()
+    if os.path.exists(rt):
+        with open(rt) as f:
+            for ln in f:
+                try:
+                    r = json.loads(ln)
+                except ValueError:
+                    continue
+                if r.get('e') != 'rl' or 'ev' not in r:
+                    continue
+                rh = r['backend'] >= 3
+                peq = r['backend'] == 4 and r['fq'] < 0
+                ok = r['ev'][5] <= 120000000 and (not rh or r['ev'][6] <= 80000000)
+                if peq and r['eq'] < 10000000:
+                    laws['ev.guard.pro-exact-eq(C09 known finding)'] += 1
+                else:
+                    laws['ev.%s.%s' % ('rhumb' if rh else 'geodesic', 'compared' if ok else 'guard.ill-conditioned')] += 1
+                laws['ev.edges'] += r['ev'][4]
+                if 'ra' in r:
+                    laws['ra.backend%d.kind%d' % (r['backend'], r['ra'][5])] += 1
+                    if peq and r['ra'][6] < 10000000:
+                        laws['ra.length.guard.pro-exact-eq(C09 known finding)'] += 1
+    # lattice states whose area obligations (Compute or one of the TestPoint closures) are suspended by the guard of finding C08-F1
+    tverts = [('N', 30), ('S', -45), ('E', 0), ('E', 180), ('E', -91), ('E', 200), ('S', 720)]
+
+    def f1(p, q):
+        return p[1] % 360 == 0 and q[1] % 360 == 180 and 0 < q[1] < p[1]
+    verts, hows = [], []
+    with open(trace) as f:
+        for ln in f:
+            try:
+                r = json.loads(ln)
+            except ValueError:
+                continue
+            if r['e'] in ('Reset', 'clear'):
+                verts, hows = [], []
+            elif r['e'] == 'pt':
+                verts.append((r['k'], r['lon'])); hows.append('pt')
+            elif r['e'] == 'ed' and verts:
+                verts.append(('E', verts[-1][1] + r['dir'] * r['s'])); hows.append('ed')
+            inner = any(hows[i + 1] == 'pt' and f1(verts[i], verts[i + 1]) for i in range(len(verts) - 1))
+            if len(verts) >= 2 and (inner or f1(verts[-1], verts[0])):
+                laws['lattice.guard.C08-F1.compute'] += 1
+            if verts and any(inner or f1(verts[-1], t) or f1(t, verts[0]) for t in tverts):
+                laws['lattice.guard.C08-F1.testpoint'] += 1
+    ctx.cov['laws'] = dict(sorted(laws.items()))
     ctx.cov['distinct_nontrivial'] = ctx.cov['behaviours_replayed']
     ctx.cov['exhaustive'] = True
     return ctx.finish(RULE, TRUSTED)
 
 
 RULE = ('TLC enumerates every build history (AddPoint over the lattice vertices, AddEdge along the equator incl. the long way round) up to '
-        'Depth, for polygon and polyline mode, with and without a cleared garbage prefix; each history is replayed on Geodesic, GeodesicExact, '
-        'Geodesic(exact=true) and Rhumb back ends (quick tier: one back end per history, round robin); after every step the whole observable '
-        'state is compared with the oracle. distinct_nontrivial = histories replayed.')
-TRUSTED = ['TLC', 'Polygon.tla (Gauss-Bonnet oracle)', 'drv_poly.cpp quantisation']
+        'Depth, for polygon and polyline mode, with and without a cleared garbage prefix, with AddEdge on the still empty object and Clear at '
+        'any point as model actions; each history is replayed on Geodesic, GeodesicExact, Geodesic(exact=true), Rhumb and Rhumb(exact=true) '
+        'back ends (quick tier: one back end per history, round robin); after every step the whole observable state is compared with the '
+        'oracle. distinct_nontrivial = histories replayed.')
+TRUSTED = ['TLC', 'Polygon.tla (Gauss-Bonnet oracle)', 'drv_poly.cpp quantisation',
+           'drv_poly.cpp long-double references of the law ra (16-point Gauss-Legendre quadrature of the meridian distance, the isometric '
+           'latitude and the area under a rhumb line; geodetic to cartesian for the distance CurrentPoint - vertex)']
 
 
 def replay(ctx, path):
